@@ -303,7 +303,7 @@ def gen_cases(rec, rng, tier):
     for _ in range(4000 if thorough else 1200):
         k = rng.randint(1, 3)
         n = rng.randint(3, 8)
-        R = fag.maybe_digits(rng, fag.random_dfa(rng, n, k, names=rng.choice([None, fag.random_names(rng, n)]), p_final=rng.choice([0.3, 0.5, 0.7])))
+        R = fag.maybe_digits(rng, fag.random_dfa(rng, n, k, names=rng.choice([None, fag.random_names(rng, n, exotic=True)]), p_final=rng.choice([0.3, 0.5, 0.7])))
         yield {'kind': 'restrict', 'cls': 'random_dfa_restrictions', 'ref': R}
     # names that collide with the helper names the constructions introduce
     for names in (['trap1', 'trap2', 'q1'], ['q1', 'q2', 'q3'], ['P1', 'trap', 'q']):
